@@ -330,6 +330,10 @@ FIXED = [
     {"mode": "name", "template": "x%Name()", "filter": "%Name() +", "mutated": "evaluation", "expect": 4},
     {"mode": "name", "template": "x%Name()", "filter": "%Name() == 'a.txt' and undefined_name", "mutated": "evaluation (fails for one file only)", "expect": 4},
     {"mode": "directory", "template": "%Name()", "sort": "%Name()", "recursive": True, "mutated": "none"},
+    # sort keys of the SAME types that still cannot be ordered: an evaluation error like any other
+    {"mode": "name", "template": "x%Name()", "sort": "(%Ext() == '', %Size() if %Size() > 1 else 'small')", "mutated": "unorderable sort keys", "expect": 4},
+    {"mode": "name", "template": "x%Name()", "sort": "%Size() * 1j", "mutated": "unorderable sort keys", "expect": 4},
+    {"mode": "name", "template": "x%Name()", "sort": "dict(size=%Size())", "mutated": "unorderable sort keys", "expect": 4},
     # sort keys that are equal for several files (ties are not an error)
     {"mode": "name", "template": "x%Name()", "sort": "%Ext()", "mutated": "none"},
     {"mode": "name", "template": "x%Name()", "sort": "1", "mutated": "none"},
